@@ -74,7 +74,7 @@ func ruleInfoState(c *Ctx) {
 			}
 		}
 	}
-	c.Floor("INFOSTATE", "struct fields holding location information", n, 3)
+	c.Floor("INFOSTATE", "struct fields holding location information", n, 2)
 }
 
 // ---- taint ----
